@@ -136,8 +136,8 @@ func (its *PushPullHandler) initialize(retCh chan *model.PushPullPack) errors.Or
 func (its *PushPullHandler) finalize() {
 	if r := recover(); r != nil {
 		its.ctx.L().Errorf("recover panic [%v]: %v", r, string(debug.Stack()))
-
-		return
+		// the request is still answered (with an error) and the lock released below
+		its.err = errors.PushPullAbortionOfServer.New(its.ctx.L(), fmt.Sprintf("%v", r))
 	}
 	if its.locked {
 		defer its.lock.Unlock()
@@ -381,6 +381,9 @@ func (its *PushPullHandler) createDatatype() errors.OrdaError {
 }
 
 func (its *PushPullHandler) initClientInfoWithDatatypeDoc() errors.OrdaError {
+	if its.datatypeDoc == nil {
+		return errors.PushPullNoDatatypeToSubscribe.New(its.ctx.L(), its.Key)
+	}
 	// if its.cli
 	its.subClientDoc = its.datatypeDoc.GetClientInDatatypeDoc(its.CUID, its.isReadOnly)
 	if its.subClientDoc != nil {
